@@ -36,7 +36,7 @@ ASSUMPTIONS = [
 
 # a known defect shape is kept out of the search by construction (see replays/C01/defect_*.json)
 SIG_EXCORE = "c01/copy/reactor-excore-not-relinked"
-EXCLUDE_KNOWN = {SIG_EXCORE: True}  # a replay case may carry "noexclude": true to reproduce the defect
+EXCLUDE_KNOWN = {SIG_EXCORE: False}  # repaired in /repo (fix: commit dcd1993), searched again; a replay case may carry "noexclude": true to reproduce the defect
 if os.environ.get("VP_C01_NOEXCLUDE"):  # debugging aid: search the excluded shape again (e.g. on a repaired tree)
     EXCLUDE_KNOWN[SIG_EXCORE] = False
 
